@@ -634,6 +634,7 @@ func main() {
 		"GenTables.v":  genTables(),
 		"GenRyu.v":     genRyu(),
 		"GenKernels.v": genKernels(),
+		"GenFuncs.v":   genFuncs(),
 	}
 	// Files are written even when problems were found so that the directed search can still build: every
 	// definition that could not be derived from the current source is taken from the golden copy (the output
